@@ -13,7 +13,7 @@ use serde_json::{json, Map, Value};
 use std::io::Read;
 
 /// Declared luma area above which a picture is "too large for memory" and skipped.
-pub const MAX_AREA: usize = 1 << 22;
+pub const MAX_AREA: usize = 1 << 25;
 
 #[derive(Clone, Debug)]
 pub enum Step {
